@@ -186,10 +186,21 @@ func oracleC12CLI(p *Pair, env *Env, a [][]byte) *Failure {
 	}
 	rulesRel := "rules/REQUEST-" + id[:3] + "-APPLICATION-ATTACK-X.conf"
 	t := Tree{"regex-assembly/" + arg + ".ra": src, rulesRel: content, "regex-assembly/include/": nil, "rules/other.data": []byte("x\n")}
+	// two more rules, walked before and after the rule under test in --all runs, kept up to date
+	if id[:3] != "000" && id[:3] != "999" {
+		t["regex-assembly/000001.ra"] = []byte("first\n")
+		t["rules/REQUEST-000-A.conf"] = []byte("SecRule ARGS \"@rx stale\" \\\n    \"id:000001\"\n")
+		t["regex-assembly/999998.ra"] = []byte("last\n")
+		t["rules/REQUEST-999-Z.conf"] = []byte("SecRule ARGS \"@rx stale\" \\\n    \"id:999998\"\n")
+	}
 	_ = t.write(sb)
 	gen := runCLI(env, sb, nil, "-l", "disabled", "regex", "generate", arg)
 	if gen.exit != 0 {
 		return nil
+	}
+	if _, extra := t["regex-assembly/000001.ra"]; extra {
+		runCLI(env, sb, nil, "-l", "disabled", "regex", "update", "000001")
+		runCLI(env, sb, nil, "-l", "disabled", "regex", "update", "999998")
 	}
 	before := snapshot(sb)
 	up := runCLI(env, sb, nil, "-l", "disabled", "regex", "update", arg)
